@@ -1,4 +1,5 @@
 import SqlgrepModel.Lemmas.AggSummaryTable
+import SqlgrepModel.Lemmas.AggDeviationPerm
 /-
 Sufficient conditions for the hypotheses of C15 (`ValuesExact`, `SumsOrderFree`, `PermSafe`) that can be checked on a
 concrete input: every argument value is NULL or an INT of magnitude ≤ 2^20 and there are at most 2^20 rows. Then no
@@ -211,31 +212,50 @@ theorem envsOf_perm (t : TableInfo) {l1 l2 : List FileLine} (h : l1.Perm l2) : (
   unfold envsOf
   exact (h.filter _).map _
 
+/-- the deviation class (D10 / D15) of a permuted input is that of the input, whenever the specification's table exists
+for the input and `PermSafe` holds (only its first component is used: every aggregate order-insensitive) -/
+theorem deviationClass_perm_of_safe {O : Oracles} {q : AggStmt} {e1 e2 : List Env} (h : e1.Perm e2)
+    (hsafe : ∀ keyed, keyedRows O q e1 = some keyed → PermSafe O q keyed) {t : List (List Value)} (ht : table O q e1 = some t) :
+    deviationClass O q e2 = deviationClass O q e1 := by
+  obtain ⟨rows, hr⟩ := keyedRows_of_table ht
+  exact (deviationClass_perm (hsafe rows hr).kinds h).symm
+
+/-- the specification's answer for a batch run (table, line count AND deviation class) depends on the multiset of all
+input lines only (under `PermSafe`) -/
+theorem specBatch_perm {O : Oracles} {qy : Query} {q : AggStmt} (hj : qy.join = none) (joined : List FileLine)
+    {f1 f2 : List (List FileLine)} (hp : f1.flatten.Perm f2.flatten)
+    (hsafe : ∀ keyed, keyedRows O q (envsOf qy.table f1.flatten) = some keyed → PermSafe O q keyed)
+    {a : RunOut × String} (h1 : Spec.Agg.batch O qy q joined f1 = some a) :
+    Spec.Agg.batch O qy q joined f2 = some a := by
+  unfold Spec.Agg.batch at h1 ⊢
+  simp only [hj] at h1 ⊢
+  have hany : f2.flatten.any (fun fl => !fl.readable) = f1.flatten.any (fun fl => !fl.readable) := hp.symm.any_eq
+  rw [hany]
+  split at h1
+  · simp at h1
+  · rename_i hr
+    simp only [hr, if_false, Bool.false_eq_true]
+    unfold Spec.Agg.batchOver at h1 ⊢
+    rw [← table_perm (envsOf_perm qy.table hp) hsafe, ← hp.length_eq]
+    cases ht : table O q (envsOf qy.table f1.flatten) with
+    | none => simp [ht] at h1
+    | some t =>
+      simp only [ht] at h1 ⊢
+      rw [deviationClass_perm_of_safe (envsOf_perm qy.table hp) hsafe ht]
+      exact h1
+
 /-- **the executed batch run ignores line order**: for an aggregate statement without join, two files whose lines are
 permutations of each other, `runBatch` prints the same and counts the same — whenever the specification answers for the
-first with an empty deviation class, `PermSafe` holds for its admitted rows, and the second is outside D10/D15 as well -/
+first with an empty deviation class and `PermSafe` holds for its admitted rows. (That the second file is outside D10 / D15
+as well is not a hypothesis: the class is a function of the multiset of the lines, `deviationClass_perm`.) -/
 theorem runBatch_perm_invariant {O : Oracles} {qy : Query} {q : AggStmt} (hq : qy.stmt = .aggregate q) (hwf : StmtWF q)
     (hj : qy.join = none) (joined : List FileLine) {l1 l2 : List FileLine} (hp : l1.Perm l2)
     (hsafe : ∀ keyed, keyedRows O q (envsOf qy.table l1) = some keyed → PermSafe O q keyed)
-    {ro : RunOut} (h1 : Spec.Agg.batch O qy q joined [l1] = some (ro, ""))
-    (hc2 : deviationClass O q (envsOf qy.table l2) = "") :
+    {ro : RunOut} (h1 : Spec.Agg.batch O qy q joined [l1] = some (ro, "")) :
     runBatch O qy joined [l1] none = runBatch O qy joined [l2] none := by
-  have h2 : Spec.Agg.batch O qy q joined [l2] = some (ro, "") := by
-    unfold Spec.Agg.batch at h1 ⊢
-    simp only [hj, List.flatten_cons, List.flatten_nil, List.append_nil] at h1 ⊢
-    have hany : l2.any (fun fl => !fl.readable) = l1.any (fun fl => !fl.readable) := hp.symm.any_eq
-    rw [hany]
-    split at h1
-    · simp at h1
-    · rename_i hr
-      simp only [hr, if_false, Bool.false_eq_true]
-      unfold Spec.Agg.batchOver at h1 ⊢
-      rw [← table_perm (envsOf_perm qy.table hp) hsafe, ← hp.length_eq]
-      cases ht : table O q (envsOf qy.table l1) with
-      | none => simp [ht] at h1
-      | some t =>
-        simp only [ht, Option.some.injEq, Prod.mk.injEq] at h1 ⊢
-        exact ⟨h1.1, hc2⟩
+  have hp' : [l1].flatten.Perm [l2].flatten := by simpa using hp
+  have h2 : Spec.Agg.batch O qy q joined [l2] = some (ro, "") :=
+    specBatch_perm hj joined hp' (by simpa using hsafe) h1
   rw [batch_refines_spec_nojoin hq hwf hj joined [l1] h1, batch_refines_spec_nojoin hq hwf hj joined [l2] h2]
 
 end Sqlgrep
